@@ -23,7 +23,7 @@ type Req struct {
 
 // Attrs are properties of an http.Request other than its method and headers that a server-side component could
 // look at: protocol version, TLS, Host, path, remote address, a body.
-var Attrs = []string{"h2", "h3", "h1.0", "tls", "host", "path", "remote", "body", "cancelled", "deadline-passed", "context-values"}
+var Attrs = []string{"h2", "h3", "h1.0", "tls", "host", "path", "remote", "body", "cancelled", "deadline-passed", "context-values", "options-star", "absolute-uri", "empty-path", "nil-body-h1.1-close", "trailers"}
 
 func (r Req) attrSuffix() string {
 	if r.Attr == "" {
@@ -62,6 +62,22 @@ func (r Req) HTTP() *http.Request {
 		q.Proto, q.ProtoMajor, q.ProtoMinor = "HTTP/1.0", 1, 0
 	case "tls":
 		q.TLS = &tls.ConnectionState{ServerName: "server.test"}
+	case "options-star":
+		// the asterisk-form request target of RFC 9110 9.3.7 (what a server with DisableGeneralOptionsHandler sees)
+		q.URL = &url.URL{Path: "*"}
+		q.RequestURI = "*"
+	case "absolute-uri":
+		q.URL = &url.URL{Scheme: "http", Host: "proxy.example", Path: "/x"}
+		q.RequestURI = "http://proxy.example/x"
+	case "empty-path":
+		q.URL = &url.URL{}
+		q.RequestURI = ""
+	case "nil-body-h1.1-close":
+		q.Close = true
+		q.Header.Set("Connection", "close")
+	case "trailers":
+		q.Trailer = http.Header{"X-Trailer": nil}
+		q.TransferEncoding = []string{"chunked"}
 	case "cancelled":
 		ctx, cancel := context.WithCancel(context.Background())
 		cancel()
